@@ -537,6 +537,56 @@ func (ww *WW) StepMelt() {
 	_ = err
 }
 
+// StepInternalMelt: one wallet pays, by a melt, the invoice of another wallet's mint quote at the SAME
+// mint: the mint settles the two quotes internally (no Lightning payment, fee reserve 0), then the
+// payee mints.
+func (ww *WW) StepInternalMelt() {
+	var payer, payee, mint string
+	for _, w := range ww.Wallets {
+		n := ww.node(w)
+		if n == nil || n.W == nil {
+			continue
+		}
+		m := mintNameOfURL(n.Mint)
+		if payer == "" && ww.balanceAt(w, m) >= 8 {
+			payer, mint = w, m
+		}
+	}
+	for _, w := range ww.Wallets {
+		if n := ww.node(w); n != nil && n.W != nil && w != payer {
+			payee = w
+		}
+	}
+	if payer == "" || payee == "" {
+		ww.StepMint()
+		return
+	}
+	amount := uint64(1 + ww.T.Choose("imelt.amt", int(ww.balanceAt(payer, mint)/2)))
+	ww.op("w.internal-melt")
+	var invoice, mintQuote string
+	ww.W.WalletOp(payee, ww.name("imq."+payee), nil, func(wl *wallet.Wallet) {
+		if q, e := wl.RequestMint(amount, ww.mintURL(mint)); e == nil {
+			invoice, mintQuote = q.Request, q.Quote
+		}
+	})
+	if invoice == "" {
+		return
+	}
+	state := "error"
+	ww.W.WalletOp(payer, ww.name("imelt."+payer), ww.takePlans(), func(wl *wallet.Wallet) {
+		q, e := wl.RequestMeltQuote(invoice, ww.mintURL(mint))
+		if e != nil {
+			return
+		}
+		ww.PendQ[payer] = append(ww.PendQ[payer], q.Quote)
+		if r, e := wl.Melt(q.Quote); e == nil {
+			state = r.State.String()
+		}
+	})
+	ww.rc.S.Probe("w_internal_melt_" + state)
+	ww.W.WalletOp(payee, ww.name("imint."+payee), nil, func(wl *wallet.Wallet) { wl.MintTokens(mintQuote) })
+}
+
 // mintInto: wallet w mints amount at its own mint (fixed scenarios need funds in a particular wallet).
 func (ww *WW) mintInto(w string, amount uint64) {
 	mint := mintNameOfURL(ww.node(w).Mint)
